@@ -94,6 +94,7 @@ class Run:
         self.initial = dict(kw)
         kw.update(hole_in=self._hole_in, hole_out=self._hole_out, boom=_boom, kbi=_kbi)
         self.depth = 0
+        self.repeat_seen = []
         self.children_translate = any('i18n:' in ch[1] for ch in children.values())
         self.translations = []    # this schema's own calls (made outside every hole)
         real_translate = self.template.translate
@@ -113,7 +114,9 @@ class Run:
         else:
             kw['__on_error_handler'] = (self.handler_calls_.append if handler_on else None)
         kw['target_language'] = None
-        kw['repeat'] = RepeatDict({})
+        # an enclosing loop over the same name, when the name is pre-bound
+        self.repeat_outer = {n: ('outer-item', n) for n in prebound}
+        kw['repeat'] = RepeatDict(dict(self.repeat_outer))
         self.helper_names = ('hole_in', 'hole_out', 'boom', 'kbi', '__translate', '__decode',
                              '__on_error_handler', 'target_language', 'repeat')
         self.econtext = Scope(kw)
@@ -140,6 +143,16 @@ class Run:
             Scope.get_name = orig
         self.output = ''.join(self.stream)
 
+    def _repeat_entries(self):
+        out = {}
+        rd = self.econtext.get('repeat')
+        for nm in self.job.get('own_names', []):
+            try:
+                out[nm] = rd[nm]
+            except Exception:
+                out[nm] = None
+        return out
+
     def _snapshot(self, scope):
         return {k: scope[k] for k in scope}
 
@@ -149,10 +162,12 @@ class Run:
         # n is the stream in force at the hole (the main one, or a translation sub-stream)
         self.hole_marks.setdefault(k, []).append([len(n), None, n])
         self.depth += 1
+        self.repeat_seen.append(['in', self._repeat_entries()])
 
     def _hole_out(self, k, n):
         self.hole_marks[k][-1][1] = len(n)
         self.depth -= 1
+        self.repeat_seen.append(['out', self._repeat_entries()])
 
     # ---- concrete K3 primitives ------------------------------------------------
     def ns(self):
@@ -199,6 +214,21 @@ class Run:
                 return False
             marks = self.hole_marks.get(n, [])
             return bool(marks) and marks[-1][1] is None
+
+        def repeat_kept(name):
+            seen = self.repeat_seen
+            for a, b in zip(seen, seen[1:]):
+                if a[0] == 'in' and b[0] == 'out' and a[1].get(name) is not b[1].get(name):
+                    return False
+            return True
+
+        def repeat_restored(name):
+            if name not in self.repeat_outer:
+                return True
+            try:
+                return self.econtext.get('repeat')[name] is self.repeat_outer[name]
+            except KeyError:
+                return False
 
         def repeat_failed():
             # the operand value is not iterable: list() raised before the loop started
@@ -319,7 +349,8 @@ class Run:
             return eval(step[0].split('==', 1)[1], dict(nsd, _i=i - 1))
 
         nsd = dict(S=S, S0=S0, out=out, out_at=out_at, val=val, evals=evals, holes=holes,
-                   trace=trace, raised=raised, repeat_failed=repeat_failed,
+                   trace=trace, raised=raised, repeat_failed=repeat_failed, repeat_kept=repeat_kept,
+                   repeat_restored=repeat_restored,
                    exc_is_exception=exc_is_exception, quoted=quoted,
                    piece=piece, visible=visible, visible0=visible0, visible_at=visible_at,
                    global_now=global_now, in_local=in_local, scope_frame=scope_frame,
